@@ -450,8 +450,13 @@ impl World {
         match op {
             Op::Block { dt, dh } => {
                 let mut bi = self.app.block_info();
-                bi.time = bi.time.plus_seconds(*dt);
                 bi.height += *dh;
+                // block times carry a sub-second part, as on a real chain (the contracts - and the model - work in whole
+                // seconds; anything that starts to depend on the fraction shows up as a divergence).  It is a function
+                // of (second, height), so a history replays identically, and it grows with the height within one second.
+                let secs = bi.time.seconds() + *dt;
+                let nanos = (secs.wrapping_mul(2_654_435_761) % 500_000_000) + (bi.height % 1000) * 400_000;
+                bi.time = cosmwasm_std::Timestamp::from_nanos(secs * 1_000_000_000 + nanos);
                 self.app.set_block(bi);
                 true
             }
